@@ -381,6 +381,9 @@ _G = "phyclone/mcmc/gibbs_mh.py"
 _P = "phyclone/mcmc/particle_gibbs.py"
 _R = "phyclone/run.py"
 SELFTEST = [
+    # ---- imported premises (density, tree editor)
+    {"name": "T2-log_p_one-skips-outlier-prior-without-outliers", "kind": "break", "rule": ["T2", "T3"], "file": "phyclone/tree/distributions.py", "old": "                if data_point.outlier_prob != 0:\n                    if node == outlier_node_name:", "new": "                if data_point.outlier_prob != 0 and outlier_node_name in tree_node_data and len(tree_node_data[outlier_node_name]) > 0:\n                    if node == outlier_node_name:"},
+    {"name": "TS-add_subtree-falsy-parent", "kind": "break", "rule": "TS", "file": "phyclone/tree/tree.py", "old": "        if parent is None:\n            parent = self._ROOT_NODE_NAME", "new": "        if not parent:\n            parent = self._ROOT_NODE_NAME"},
     {"name": "G1-log_p-instead-of-log_p_one", "kind": "break", "rule": "G1", "file": _G, "old": "log_q = np.array([self.tree_dist.log_p_one(x) for x in new_trees])", "new": "log_q = np.array([self.tree_dist.log_p(x) for x in new_trees])"},
     {"name": "G1-extra-term-data-point", "kind": "break", "rule": "G1", "file": _G, "old": "log_q = np.array([self.tree_dist.log_p_one(x) for x in new_trees])", "new": "log_q = np.array([self.tree_dist.log_p_one(x) + np.log(len(new_trees)) * x.get_number_of_nodes() for x in new_trees])"},
     {"name": "G1-revert-F5", "kind": "break", "rule": "G1", "file": _G, "old": "log_p = np.array([self.tree_dist.log_p_one(x) for _, x in trees])", "new": "log_p = np.array([np.log(n + 1) + self.tree_dist.log_p_one(x) for n, x in trees])"},
